@@ -1,6 +1,117 @@
-import Asts.Spec.Reconcile
+import Asts.Proofs.L1_a_Final
 
-/-! # C03 — property theorems (under construction) -/
+/-! # C03 — only pods that must go are ever deleted; scale-in at slot k removes only pod k
+
+Property theorems only; the lemmas live in `Asts/Proofs/L1_a_*.lean`. All theorems hold for every spec (replicas absent,
+negative, any slot list), every pod list (no `wfSnapshot`: duplicate ordinals, unparsable names and phase-less pods
+included) and every fault plan. The only hypothesis of the headline is `IdsOk pods`: the identities by which a recorded
+delete names its pod are pairwise distinct and below `freshId` (the harness numbers pods by position) — without it the
+monitor cannot tell which pod a delete was given. The code treats every strategy other than `OnDelete` as RollingUpdate,
+and a negative partition as 0; so do the theorems. -/
 namespace Asts.C03
+
+/-- **C03**: the monitor is true on the model's output for every spec, snapshot and fault plan. -/
+theorem C03_holds (v : SetView) (cur upd : String) (pods : List Pod) (f : Faults) (hids : IdsOk pods) :
+    C03 v upd pods (observe (updateStatefulSet v cur upd pods f).1.acts)
+      ((updateStatefulSet v cur upd pods f).2 == .ok) = true :=
+  C03_holds_gen v cur upd pods f hids
+
+/-- C03 under exactly the preconditions of the run-time monitor: pod ids are positions, fewer than `freshId` pods. -/
+theorem C03_holds_monitor (v : SetView) (cur upd : String) (pods : List Pod) (f : Faults)
+    (hpos : pods.map Pod.id = List.range pods.length) (hlen : pods.length ≤ freshId) :
+    C03 v upd pods (observe (updateStatefulSet v cur upd pods f).1.acts)
+      ((updateStatefulSet v cur upd pods f).2 == .ok) = true :=
+  Asts.C03_holds_monitor v cur upd pods f hpos hlen
+
+/-- `Prop` reading on the model's own action list (delete reason visible), no hypothesis: every delete targets
+    (a) a pod of the snapshot outside the desired set, (b) a Failed/Succeeded pod of the snapshot, (c) strategy ≠ OnDelete,
+    a non-terminating pod of the snapshot at or above the partition whose revision is not the update revision — or the
+    object this same reconcile created at that ordinal with a revision other than the update revision. -/
+theorem C03_prop (v : SetView) (cur upd : String) (pods : List Pod) (f : Faults) {o : Int} {id : Nat} {why : Why}
+    (h : Action.delete o id why ∈ (updateStatefulSet v cur upd pods f).1.acts) :
+    (∃ p ∈ pods, p.id = id ∧ p.ord = o ∧
+        ((why = .scaleDown ∧ o ∉ desired (replicasOf v) v.slots) ∨
+         (why = .replaceFailed ∧ (p.failed = true ∨ p.succeeded = true)) ∨
+         (why = .update ∧ v.strat ≠ .onDelete ∧ partOf v ≤ o ∧ p.rev ≠ upd ∧ p.terminating = false))) ∨
+    (why = .update ∧ id = freshId + o.toNat ∧ v.strat ≠ .onDelete ∧ partOf v ≤ o ∧
+        ∃ rev, rev ≠ upd ∧ Action.create o rev ∈ (updateStatefulSet v cur upd pods f).1.acts) :=
+  C03_reading v cur upd pods f h
+
+/-- Clause (b), "that it immediately replaces": the action after the deletion of a Failed/Succeeded pod is the create at
+    the same ordinal — or the deletion is the last action and the reconcile did not end ok. -/
+theorem replace_is_immediate (v : SetView) (cur upd : String) (pods : List Pod) (f : Faults) {pre post : List Action}
+    {o : Int} {id : Nat}
+    (h : (updateStatefulSet v cur upd pods f).1.acts = pre ++ .delete o id .replaceFailed :: post) :
+    (∃ rev post', post = .create o rev :: post') ∨ (post = [] ∧ (updateStatefulSet v cur upd pods f).2 ≠ .ok) :=
+  replace_followed v cur upd pods f h
+
+/-- **A live pod of the desired set that is up to date is never deleted, whatever else is going on.** -/
+theorem live_uptodate_never_deleted (v : SetView) (cur upd : String) (pods : List Pod) (f : Faults) (hids : IdsOk pods)
+    {p : Pod} (hp : p ∈ pods) (hD : p.ord ∈ desired (replicasOf v) v.slots)
+    (hlive : p.failed = false ∧ p.succeeded = false)
+    (hup : p.rev = upd ∨ v.strat = .onDelete ∨ p.ord < partOf v) (o : Int) (why : Why) :
+    Action.delete o p.id why ∉ (updateStatefulSet v cur upd pods f).1.acts :=
+  Asts.live_uptodate_never_deleted v cur upd pods f hids hp hD hlive hup o why
+
+/-- **slot_k_only**: every ordinal of `desired r S` holds exactly one pod — healthy, at the update revision, identity and
+    storage in order — there are no other pods, and `k` is one of these ordinals. Reconciling the spec with slots `k :: S`
+    and replicas `r - 1` (the desired set becomes `(desired r S).erase k`, see `slot_k_desired`) yields exactly
+    `[delete k]`, given the pod at `k` — under both policies (`v.parallel` is free), every strategy and every fault plan;
+    the reconcile ends ok unless that very delete is made to fail. -/
+theorem slot_k_only (v : SetView) (cur upd : String) (pods : List Pod) (f : Faults) (r k : Int) (S : List Int)
+    (hr : v.replicas = some (r - 1)) (h1 : 1 ≤ r) (hs : v.slots = k :: S) (hk : k ∈ desired r S)
+    (hdel : v.deleting = false) (hperm : (pods.map Pod.ord).Perm (desired r S))
+    (hgood : ∀ p ∈ pods, p.healthy = true ∧ p.rev = upd ∧ p.idOk = true ∧ p.stOk = true) (hids : IdsOk pods) :
+    ∃ pk ∈ pods, pk.ord = k ∧
+      observe (updateStatefulSet v cur upd pods f).1.acts = [.delete k (some pk.id)] ∧
+      (f.hit 1 k = false → (updateStatefulSet v cur upd pods f).2 = .ok) :=
+  slot_k_only_observed v cur upd pods f r k S hr h1 hs hk hdel hperm hgood hids
+
+/-- Listing a desired ordinal and decrementing replicas removes exactly that ordinal from the desired set. -/
+theorem slot_k_desired (r : Int) (S : List Int) (k : Int) (h1 : 1 ≤ r) (hk : k ∈ desired r S) :
+    desired (r - 1) (k :: S) = (desired r S).erase k :=
+  desired_cons_erase r S k h1 hk
+
+/-- `slot_k_only` on the model's action list, in its general form: `k ≥ 0` is a listed slot (wherever it lies: inside
+    the range or beyond it) and the pods are exactly one per ordinal of `desired ∪ {k}`. -/
+theorem slot_k_only_general (v : SetView) (cur upd : String) (pods : List Pod) (f : Faults) (r' k : Int)
+    (hr : v.replicas = some r') (h0 : 0 ≤ r') (hk : k ∈ v.slots) (hk0 : 0 ≤ k) (hdel : v.deleting = false)
+    (hperm : (pods.map Pod.ord).Perm (k :: desired r' v.slots))
+    (hgood : ∀ p ∈ pods, p.healthy = true ∧ p.rev = upd ∧ p.idOk = true ∧ p.stOk = true) :
+    ∃ pk ∈ pods, pk.ord = k ∧
+      (updateStatefulSet v cur upd pods f).1.acts = [.delete k pk.id .scaleDown] ∧
+      (f.hit 1 k = false → (updateStatefulSet v cur upd pods f).2 = .ok) :=
+  slot_k_only_gen v cur upd pods f r' k hr h0 hk hk0 hdel hperm hgood
+
+/-! non-vacuity of `C03_holds`: one delete of each kind in a single reconcile (replace 0, scale-in 1, update 3) -/
+private def exV : SetView :=
+  { replicas := some 3
+    slots := [1]
+    parallel := true
+    strat := .rolling
+    ru := some (some 0)
+    deleting := false
+    generation := 1
+    stCurrentReplicas := 0 }
+private def exPods : List Pod := [
+  { id := 0, ord := 0, phase := .failed, ready := false, terminating := false, rev := "b", idOk := true, stOk := true },
+  { id := 1, ord := 1, phase := .running, ready := true, terminating := false, rev := "b", idOk := true, stOk := true },
+  { id := 2, ord := 3, phase := .running, ready := true, terminating := false, rev := "a", idOk := true, stOk := true }]
+
+example : IdsOk exPods := idsOk_of_positions (by decide) (by decide)
+example : (updateStatefulSet exV "a" "b" exPods []).1.acts =
+    [.delete 0 0 .replaceFailed, .create 0 "b", .create 2 "b", .delete 1 1 .scaleDown, .delete 3 2 .update] := by decide
+
+/-! non-vacuity of `slot_k_only`: r = 3, S = [], k = 1; pods 0,1,2 healthy at "b"; spec now has replicas 2, slots [1] -/
+private def exV2 : SetView := { exV with replicas := some (3 - 1), slots := 1 :: [], parallel := false }
+private def exPods2 : List Pod := [
+  { id := 0, ord := 2, phase := .running, ready := true, terminating := false, rev := "b", idOk := true, stOk := true },
+  { id := 1, ord := 0, phase := .running, ready := true, terminating := false, rev := "b", idOk := true, stOk := true },
+  { id := 2, ord := 1, phase := .running, ready := true, terminating := false, rev := "b", idOk := true, stOk := true }]
+
+example : exV2.replicas = some (3 - 1) ∧ exV2.slots = 1 :: [] ∧ (1 : Int) ∈ desired 3 [] ∧ exV2.deleting = false ∧
+    (exPods2.map Pod.ord).Perm (desired 3 []) ∧
+    (∀ p ∈ exPods2, p.healthy = true ∧ p.rev = "b" ∧ p.idOk = true ∧ p.stOk = true) := by decide
+example : observe (updateStatefulSet exV2 "a" "b" exPods2 []).1.acts = [.delete 1 (some 2)] := by decide
 
 end Asts.C03
